@@ -128,7 +128,9 @@ func runUptracePrep(args []string) int {
 			if s != nil && s.n > 0 && call == "open" {
 				// a resumption begins with [truncate ;] zero characteristics ; zero offsets
 				last := s.lines[len(s.lines)-1]
-				if e.Ev == "truncate" || (e.Off == 11 && e.Len == 16 && last["kind"] != "truncate") {
+				// (a truncation that is not the first event of its session is the one that closes a resumption: a header
+				// clearing that follows it belongs to the next reopen of the same file)
+				if e.Ev == "truncate" || (e.Off == 11 && e.Len == 16 && (last["kind"] != "truncate" || s.n > 1)) {
 					start = true
 				}
 				// ... and ends with a truncation at the last complete section: same session
